@@ -30,6 +30,44 @@ var commonAssumptions = []string{
 func allChecks() []CheckSpec {
 	return []CheckSpec{
 		{
+			ID: "C06",
+			Harnesses: []HarnessSpec{
+				{Fn: "verifC06AddRemote", Lemma: "public AddRemoteCandidate with every kind of trickled candidate (new host/srflx, duplicate, signalled candidate superseding a peer-reflexive one, TCP-active, nil) preserves the bookkeeping invariant I1-I5 (no pair twice, ids unique/in range/indexed, pairs formed from current candidates of one network type, selected listed, remotes deduplicated/never TCP-active/accepted by the IP filter); a superseded peer-reflexive candidate's pairs keep id, state, flags, priority and the selection",
+					Bounds: "2 local + 1 host + 1 prflx remote, symbolic pair states/flags, selection nil/any, remote IP filter rejecting one symbolic last octet, 6 candidate kinds", MustReach: []string{"filtered", "added", "duplicate", "supersedes-prflx", "ignored", "done"},
+					Cfg: func(c *HarnessCfg, tier int) { c.GoRunMatch = "AddRemoteCandidate$" }},
+				{Fn: "verifC06PrflxThenSignalled", Lemma: "signalled-then-prflx order: an authenticated request from a signalled candidate's address creates no duplicate remote", Bounds: "1+1 candidates, symbolic tie-breaker/priority", MustReach: []string{"done"}},
+				{Fn: "verifC06InboundUnknown", Lemma: "authenticated request from an unknown source: the peer-reflexive candidate passes through the remote IP filter (filtered => nothing changes at all) and the invariant holds",
+					Bounds: "2 local + 1 remote, two unknown source addresses, filter rejecting one symbolic last octet", MustReach: []string{"filtered", "discovered", "done"}},
+				{Fn: "verifC06AddLocal", Lemma: "local candidate arrival (real addCandidate): new => paired with every remote and published once; duplicate => rejected, its socket closed once, not published; invariant holds",
+					Bounds: "1 local + 2 remotes, new/duplicate", MustReach: []string{"duplicate", "new", "done"}},
+				{Fn: "verifC06RestartAndFailed", Lemma: "Restart and the Failed transition leave no pairs, index entries, candidates, selection or outstanding transactions; the pair id counter is not reset",
+					Bounds: "2+2 candidates, 4 pairs, a selection and an outstanding transaction", MustReach: []string{"restart", "failed", "done"}},
+			},
+			Assumptions: append([]string{
+				"integrity contract; taskloop.Run by contract (C10 assumed); the goroutine spawned by AddRemoteCandidate runs to completion immediately",
+				"remote IP filter = predicate on the address (rejects one last octet)",
+			}, commonAssumptions...),
+			Outside: "passive-TCP remotes (open active sockets), mDNS resolution, interleavings of trickle with checks beyond one step",
+		},
+		{
+			ID: "C07",
+			Harnesses: []HarnessSpec{
+				{Fn: "verifC07Write", Lemma: "Conn.Write: closed agent or STUN-looking payload => error and nothing sent; otherwise exactly one datagram with the same bytes leaves through the local socket of the selected pair (without selection: of a maximum-priority Succeeded pair; none => ErrNoCandidatePairs) to that pair's remote address; byte and per-pair counters advance by exactly (n, 1, n) iff n > 0",
+					Bounds: "2 local x 1 remote pairs with symbolic states and priorities 1..256, selection nil/any, payload lengths {0,1,19,20,24} with all bytes symbolic (covers the STUN cookie window), per-socket outcome ok/error/ErrClosedPipe, open/closed agent", MustReach: []string{"closed", "stun-like", "no-valid-pair", "socket-error", "sent", "done"}},
+				{Fn: "verifC07WriteToPair", Lemma: "Conn.WriteToPair: unknown id or not-Succeeded pair => its error and nothing sent; else one datagram on that pair with the same bytes; counters",
+					Bounds: "any 64-bit id, symbolic pair states, payload lengths {1,19,20,24}", MustReach: []string{"unknown-id", "not-succeeded", "sent", "done"}},
+				{Fn: "verifC07Inbound", Lemma: "non-STUN datagram at a local candidate: reaches the reader exactly once and byte-identical iff its source is (cached as) a known remote of the same transport; otherwise dropped with no state change; cache entries only map an address to the current remote with that address; Read adds exactly the returned n",
+					Bounds: "1 local + 2 UDP remotes + 1 TCP remote with another address, source = any IPv4 address:port / the TCP remote / IPv4-mapped remote, cache empty or pre-filled, payload lengths {1,19,20,24}", MustReach: []string{"unknown-source", "known-source", "done"}},
+				{Fn: "verifC07InboundSTUN", Lemma: "STUN-looking datagrams (header-only, any type/transaction id) never reach the reader buffer",
+					Bounds: "20-byte header with the magic cookie, symbolic type and transaction id, any source", MustReach: []string{"done"}},
+			},
+			Assumptions: append([]string{
+				"sockets are recording fakes with nondeterministic outcomes (ok / error / io.ErrClosedPipe); packetio.Buffer and sync.Map: real code / sequential model",
+				"taskloop.Run by contract (C10 assumed)",
+			}, commonAssumptions...),
+			Outside: "delivery at the peer (needs the network); re-selection races; payloads beyond the listed lengths (content is symbolic, lengths are case-split)",
+		},
+		{
 			ID: "C04",
 			Harnesses: []HarnessSpec{
 				{Fn: "verifC04TimingFn", Lemma: "connectionStateForDisconnection == oracle(silence, disconnected timeout, failed timeout, current state); zero disables either; Connected->Failed directly only with the disconnected timeout disabled",
